@@ -619,6 +619,42 @@ def audit_constrained(ctx, rng, cases):
                               {'stream': 'audit-constrained', 'case': c})
 
 
+def stream_conmod(ctx, rng, cases):
+    """the even modulator of the constrained builders (ell > 0): prob.metadata['modulator'] vs the model"""
+    import sageopt as so
+    lines, impl = [], []
+    for c in cases:
+        ell = rng.choice([1, 1, 2])
+        f = st.build(c['f'])
+        gts = [st.build(g) for g in c['gts']]
+        eqs = [st.build(g) for g in c['eqs']]
+        for form in ('primal', 'dual'):
+            try:
+                prob = so.poly_constrained_relaxation(f, gts, eqs, form=form, p=0, q=1, ell=ell)
+                mod = prob.metadata['modulator']
+                io = {'n': int(mod.n), 'alpha': st.mat_json(mod.alpha), 'c': [rm.fr(x) for x in np.asarray(mod.c, dtype=float)]}
+            except Exception as e:  # noqa: BLE001
+                io = {'raises': type(e).__name__, 'msg': str(e)[:120]}
+            alphas = [c['f']['alpha']] + ([[['0'] * c['f']['n']]] if form == 'dual' else []) + [g['alpha'] for g in c['gts']] + [g['alpha'] for g in c['eqs']]
+            lines.append({'op': 'poly.conmod', 'n': c['f']['n'], 'alphas': alphas, 'ell': ell})
+            impl.append((c, form, ell, io))
+    mouts = run_driver(lines)
+    for (c, form, ell, io), mo in zip(impl, mouts):
+        if isinstance(mo, dict) and 'error' in mo:
+            raise common.DriverError(mo['error'])
+        ctx.case({'stream': 'conmod', 'form': form, 'ell': ell, 'case': c}, nontrivial=True)
+        ctx.count('stream:conmod')
+        if 'raises' in io:
+            ctx.disagreement('conmod', {'form': form, 'ell': ell, 'case': c}, io, mo)
+            continue
+        a_alpha, (a_c,) = rm.sort_rows(io['alpha'], io['c'])
+        m_alpha, (m_c,) = rm.sort_rows(mo['alpha'], mo['c'])
+        if common.canon_json([a_alpha, a_c]) != common.canon_json([m_alpha, m_c]):
+            ctx.disagreement('conmod', {'form': form, 'ell': ell, 'case': c}, {'alpha': a_alpha, 'c': a_c}, {'alpha': m_alpha, 'c': m_c})
+        else:
+            ctx.traces_validated += 1
+
+
 def run(ctx):
     rng = ctx.rng
     ctx.lean = common.lean_check('C05')
@@ -626,7 +662,26 @@ def run(ctx):
     stream_sigrep(ctx, rng, 120 if quick else 800)
     cases = stream_relax(ctx, rng, 50 if quick else 300)
     ccases = stream_lagrangian(ctx, rng, 40 if quick else 250)
+    stream_conmod(ctx, rng, ccases[:20 if quick else 120])
+    # unconstrained polynomials through the constrained builder with ell = 1 (the even modulator matters exactly there)
+    extra = [{'f': gen_poly(rng, bounded=True), 'gts': [], 'eqs': [], 'p': 0, 'q': 1, 'ell': 1} for _ in range(14 if quick else 60)]
+    for _ in range(3 if quick else 12):
+        # a x^d + b x, no constant term, nothing else
+        extra.append({'f': rm.sig_leaf([[F(rng.choice([2, 4]))], [F(1)]], [F(rng.choice([1, 2, 3])), F(rng.choice([1, -1, 2]))], poly=True),
+                      'gts': [], 'eqs': [], 'p': 0, 'q': 1, 'ell': 1})
+    for k, e in enumerate(extra):
+        if k % 2 == 0 and len(e['f']['c']) > 2:
+            # no constant term and an odd linear term (x^4 + x style): the modulator's rows then come from odd monomials too
+            f = e['f']
+            f['c'][0] = '0'
+            row = ['1'] + ['0'] * (f['n'] - 1)
+            if row in f['alpha']:
+                f['c'][f['alpha'].index(row)] = '1'
+            else:
+                f['alpha'].append(row)
+                f['c'].append('1')
     audit_relax(ctx, rng, cases[:30 if quick else 200])
+    audit_constrained(ctx, rng, extra)
     audit_constrained(ctx, rng, ccases[:15 if quick else 100])
     if (not ctx.lean.ok or ctx.disagreements) and not ctx.violations:
         common.broken_report(ctx, 'signomial-representative oracle and bound audits over all orthants found no failing input')
